@@ -66,6 +66,39 @@ CHECKS.update({
         technique="TLA+ fork/join interleaving model checked with TLC against a sequential reference + " + TRACEVM),
 })
 
+TRACEBC = ("TLC validation (spec/trace/TraceBytecode.tla) of what the real crates answer for byte strings, op sequences, "
+           "opcode bytes and effect queries against spec/Bytecode.tla instantiated with the table generated from asm.yml")
+CHECKS.update({
+    "C13": dict(
+        level="model_checking", design="6/C13",
+        text="The op table is regenerated from /repo's asm.yml by an independent reader and must equal the pinned table "
+             "(TLC ASSUME); TLC checks TableSane, RoundTrip, Unambiguous, PrefixRoundTrip and ErrorClasses of the "
+             "parser/serialiser state machines for every byte string of <=5 (thorough 6) symbols over 11 byte classes; "
+             "all 256 opcode bytes, byte pairs, all op pairs, bit-walking / boundary / opcode-carrying immediates with "
+             "every truncation point and random sequences are pushed through from_bytes / to_bytes / Opcode::try_from / "
+             "to_opcode of the real crates and each answer is validated by TLC.",
+        note="short::* constants are only exercised through the names the harness uses for ops; immediates are compared "
+             "as 8-byte strings against i64::to_be_bytes (std is trusted).",
+        technique="TLA+ codec state machines model-checked with TLC + " + TRACEBC),
+    "C14": dict(
+        level="model_checking", design="6/C14",
+        text="TLC checks MappedIsParsed (same verdict and error class, same ops in order, random access, offsets) on the "
+             "byte-class strings; BytecodeMapped::try_from (owned and borrowed), ops(), op(i), ops_from, FromIterator of "
+             "the real crate are validated on the codec driver's inputs; every program of the equivalence driver is "
+             "executed through exec_ops, exec_bytecode(Vec<u8>) and exec_bytecode(&[u8]) - each execution is validated "
+             "per op by TraceVm.tla and the three final states, gas and errors are compared directly.",
+        note="see C13; program families are those of C05/C07/C09/C10 (jumps, repeats, compute children re-indexing).",
+        technique="TLA+ mapping model checked with TLC + TLC trace validation of both execution paths"),
+    "C15": dict(
+        level="model_checking", design="6/C15",
+        text="TLC checks ScanExact (the byte loop with its 8-byte skip answers exactly 'some parsed op has one of the "
+             "effects') for all 64 masks on every byte-class string; bytes_contains_any (64 masks) and analyze of the real "
+             "crate are validated for every program of <=2 ops over the 62 ops plus pushes carrying each effectful opcode "
+             "byte at each immediate position, and random longer programs.",
+        note="the property is about well-formed bytecode: malformed strings are not compared.",
+        technique="TLA+ scan/analysis model checked with TLC + " + TRACEBC),
+})
+
 NOT_YET = {
 }
 
